@@ -1,18 +1,18 @@
 #!/bin/bash
 # usage: tools/seedsuite.sh <id> : runs the pinned test suite on /repo HEAD + /tmp/seed/<id>.out/patch.diff in a scratch worktree;
 # writes /tmp/seed/<id>.out/suite.txt with 'SUITE ok' when all 32 stable tests still pass
-id=$1; W=/tmp/mw/suite_$id
+id=$1; S=${SEEDROOT:-/tmp/seed}; W=/tmp/mw/suite_$(basename $S)_$id
 git -C /repo worktree add -q --detach $W HEAD || exit 2
-git -C $W apply /tmp/seed/$id.out/patch.diff || { echo "PATCH FAILS" > /tmp/seed/$id.out/suite.txt; git -C /repo worktree remove --force $W; exit 3; }
-(cd $W && timeout 6000 /venv/bin/python -m pytest -q -p no:cacheprovider --timeout=1800 --continue-on-collection-errors --junitxml=/tmp/seed/$id.out/junit.xml > /tmp/seed/$id.out/pytest.log 2>&1)
-python3 - $id <<'PY'
+git -C $W apply $S/$id.out/patch.diff || { echo "PATCH FAILS" > $S/$id.out/suite.txt; git -C /repo worktree remove --force $W; exit 3; }
+(cd $W && timeout 6000 /venv/bin/python -m pytest -q -p no:cacheprovider --timeout=1800 --continue-on-collection-errors --junitxml=$S/$id.out/junit.xml > $S/$id.out/pytest.log 2>&1)
+python3 - $id $S <<'PY'
 import json, sys, xml.etree.ElementTree as ET
 id=sys.argv[1]
 b=json.load(open('/root/.vp/BASELINE.json'))
-t=ET.parse('/tmp/seed/%s.out/junit.xml'%id).getroot()
+t=ET.parse(sys.argv[2]+'/%s.out/junit.xml'%id).getroot()
 passed={'%s::%s'%(tc.get('classname'),tc.get('name')) for tc in t.iter('testcase') if not any(c.tag in('failure','error','skipped') for c in tc)}
 sp=set(b['stable_pass'])
-open('/tmp/seed/%s.out/suite.txt'%id,'w').write(('SUITE ok: all %d stable tests pass\n'%len(sp)) if sp<=passed else 'SUITE BROKEN: %r\n'%sorted(sp-passed))
+open(sys.argv[2]+'/%s.out/suite.txt'%id,'w').write(('SUITE ok: all %d stable tests pass\n'%len(sp)) if sp<=passed else 'SUITE BROKEN: %r\n'%sorted(sp-passed))
 PY
 git -C /repo worktree remove --force $W
-cat /tmp/seed/$id.out/suite.txt
+cat $S/$id.out/suite.txt
